@@ -97,3 +97,16 @@ Theorem C14_manager_conhash_same_set : forall order points (U : list N -> Prop),
   mgr_route points (mgr_state order as1) ConHash code = mgr_route points (mgr_state order as2) ConHash code.
 Proof. exact ManagerProofs.mgr_conhash_same_set. Qed.
 Print Assumptions C14_manager_conhash_same_set.
+
+(* a refresh while endpoints are out (is_down: hosts deactivated by the health check): whatever the selector kind, a call is
+   routed only to an endpoint that the registry lists and that is not out - the one installed list serves all three selectors *)
+Theorem C14_manager_refresh_excludes_down : forall order points down m answer k code e,
+  (forall l e, In e (order l) <-> In e l) -> answer <> [] -> answer <> m_raw m ->
+  mgr_route points (mgr_refresh_h order down m answer) k code = RSel e -> In e answer /\ is_down down e = false.
+Proof. exact ManagerProofs.mgr_route_excludes_down. Qed.
+Print Assumptions C14_manager_refresh_excludes_down.
+Theorem C14_manager_refresh_installed : forall order down m answer,
+  (forall l e, In e (order l) <-> In e l) -> answer <> [] -> answer <> m_raw m -> forall e,
+  In e (m_eps (mgr_refresh_h order down m answer)) <-> In e answer /\ is_down down e = false.
+Proof. exact ManagerProofs.mgr_refresh_h_installed. Qed.
+Print Assumptions C14_manager_refresh_installed.
